@@ -4,7 +4,7 @@ from vlib import core
 
 THEOREMS = ["Props.C08." + t for t in [
     "template_constants_sound", "msg_roundtrip", "extends_dispatch", "extends_dispatch_step", "call_roundtrip",
-    "handler_sees_args", "unknown_method", "wire_shape_request", "wire_shape_reply", "call_sequence", "answer_sufficient"]]
+    "handler_sees_args", "unknown_method", "wire_shape_request", "wire_shape_reply", "call_sequence", "answer_sufficient", "streaming_removed"]]
 
 
 def run(ctx):
